@@ -323,13 +323,13 @@ def check(run, repo):
 T_ = 'pmutt/io/thermdat.py'
 MUTANTS = [
     {'name': 'one coefficient with 7 decimals', 'expect': ('TABLE', '_write_line'),
-     'edits': [(T_, "line = ('{: 2.8E}{: 2.8E}{: 2.8E}{: 2.8E}{: 2.8E}    2\\n').format(", "line = ('{: 2.8E}{: 2.7E}{: 2.8E}{: 2.8E}{: 2.8E}    2\\n').format(")]},
+     'edits': [(T_, "line = ('{: 2.8E}{: 2.8E}{: 2.8E}{: 2.8E}{: 2.8E}    2\\n'", "line = ('{: 2.8E}{: 2.7E}{: 2.8E}{: 2.8E}{: 2.8E}    2\\n'")]},
     {'name': 'line 3 swaps a_high[5] and a_high[6]', 'expect': ('TABLE.readback', 'read_thermdat'),
      'edits': [(T_, "nasa_specie.a_high[5], nasa_specie.a_high[6], nasa_specie.a_low[0],", "nasa_specie.a_high[6], nasa_specie.a_high[5], nasa_specie.a_low[0],")]},
     {'name': 'phase written one column later', 'expect': ('TABLE', ''),
-     'edits': [(T_, 'temperature_pos = [44, 45, 55, 65, 79]', 'temperature_pos = [45, 46, 55, 65, 79]')]},
+     'edits': [(T_, '        44,  # Phase\n        45,  # T_low', '        45,  # Phase\n        46,  # T_low')]},
     {'name': 'reader offset 14', 'expect': ('TABLE.readback', 'read_thermdat'),
-     'edits': [(T_, "    positions = [0, 15, 30, 45, 60]\n    offset = 15\n    nasa_data['a_high'] = np.zeros(7)", "    positions = [0, 15, 30, 45, 60]\n    offset = 14\n    nasa_data['a_high'] = np.zeros(7)")]},
+     'edits': [(T_, "    positions = [0, 15, 30, 45, 60]\n    offset = 15\n\n    nasa_data['a_high'] = np.zeros(7)", "    positions = [0, 15, 30, 45, 60]\n    offset = 14\n\n    nasa_data['a_high'] = np.zeros(7)")]},
     {'name': 'species appended on record 3', 'expect': ('TABLE.readback', 'read_thermdat'),
      'edits': [(T_, "                nasa_data = _read_line3(line, nasa_data)\n", "                nasa_data = _read_line3(line, nasa_data)\n                species.append(Nasa(**nasa_data))\n")]},
     {'name': 'reader swaps T_high and T_mid', 'expect': ('TABLE.readback', 'read_thermdat'),
@@ -339,5 +339,5 @@ MUTANTS = [
                (T_, "def _read_line1(line):", "_ELEMENTS = {}\n\n\ndef _read_line1(line):")]},
 ]
 EQUIV = [
-    {'name': 'reader positions computed', 'edits': [(T_, "    positions = [0, 15, 30, 45]\n    offset = 15\n    j = 3", "    offset = 15\n    positions = [offset * k for k in range(4)]\n    j = 3")]},
+    {'name': 'reader positions computed', 'edits': [(T_, "    positions = [0, 15, 30, 45]\n    offset = 15\n\n    j = 3", "    offset = 15\n    positions = [offset * k for k in range(4)]\n\n    j = 3")]},
 ]
